@@ -27,6 +27,7 @@ import (
 	"verif/harness/ref/refcff"
 	"verif/harness/ref/refcffwalk"
 	"verif/harness/ref/refcmap"
+	"verif/harness/ref/refname"
 	"verif/harness/ref/refsfnt"
 	"verif/harness/stats"
 )
@@ -94,7 +95,36 @@ func mutateContainer(t *rapid.T, in []byte) []byte {
 	n := rapid.IntRange(0, 3).Draw(t, "nTableOps")
 	for i := 0; i < n && len(tags) > 0; i++ {
 		tag := rapid.SampledFrom(tags).Draw(t, "opTable")
-		switch rapid.IntRange(0, 7).Draw(t, "tableOp") {
+		switch rapid.IntRange(0, 8).Draw(t, "tableOp") {
+		case 8: // a well-formed name table made of records a reader may not understand
+			// (Unicode platform only, Windows symbol or UCS-4 encoding, languages
+			// outside any list, no records at all, empty strings only)
+			var recs []refname.RawRecord
+			form := rapid.SampledFrom([]string{"unicode-platform", "win-symbol", "win-ucs4", "win-unknown-language", "mac-unknown-language", "no-records", "empty-strings", "iso-platform"}).Draw(t, "exoticNames")
+			for id := 0; id < 7 && form != "no-records"; id++ {
+				r := refname.RawRecord{NameID: uint16(id), Data: refname.EncodeUTF16BE(fmt.Sprintf("name %d", id))}
+				switch form {
+				case "unicode-platform":
+					r.Platform, r.Encoding = 0, 3
+				case "win-symbol":
+					r.Platform, r.Encoding, r.Language = 3, 0, 0x409
+				case "win-ucs4":
+					r.Platform, r.Encoding, r.Language = 3, 10, 0x409
+				case "win-unknown-language":
+					r.Platform, r.Encoding, r.Language = 3, 1, 0x0C00
+				case "mac-unknown-language":
+					r.Platform, r.Encoding, r.Language, r.Data = 1, 0, 150, []byte(fmt.Sprintf("name %d", id))
+				case "empty-strings":
+					r.Platform, r.Encoding, r.Language, r.Data = 3, 1, 0x409, nil
+				default:
+					r.Platform, r.Encoding = 2, 1
+				}
+				recs = append(recs, r)
+			}
+			if d, err := refname.Build(0, recs, nil, 0); err == nil {
+				tables["name"] = d
+				stats.Label("font", "name-table:"+form)
+			}
 		case 0: // delete
 			delete(tables, tag)
 		case 1: // rename
